@@ -28,6 +28,11 @@ The model (`SimbodyModel/C20.lean`) mirrors the C++ step routines statement by s
 Not formalised (cited): Butcher's theorem "order conditions up to p ⇒ local error O(h^{p+1})" for general
 smooth `f` (Hairer–Nørsett–Wanner I, Thm II.2.13).
 -/
+set_option linter.unusedSimpArgs false
+set_option linter.unusedTactic false
+set_option linter.unreachableTactic false
+set_option linter.unusedSectionVars false
+
 namespace C20
 
 /-! ## 1. code = tableau -/
